@@ -87,10 +87,22 @@ func (p *Program) replay(prop string, obls []*Obligation, opts checkOpts, dir st
 			break
 		}
 	}
-	// ground obligations carry their witness directly
+	// ground obligations carry their witness directly: language and index go to the harness as hints
 	for _, o := range obls {
 		if o.Kind == "ground" && o.Failed {
 			rf.Note = "ground fact fails: " + o.Reason
+			parts := strings.Split(o.Name, "/")
+			if len(parts) >= 3 {
+				if h, ok := p.groundHints[parts[1]]; ok {
+					rf.Hints["ground.lang"] = parts[1]
+					for _, k := range []string{"unstable_i", "diff_i", "dup_i", "dup_j", "bad_i"} {
+						if v, ok := h[k]; ok {
+							rf.Hints["ground.index"] = v
+							break
+						}
+					}
+				}
+			}
 		}
 	}
 	res, cmdline, note := p.runHarness(prop, base, rf.Hints, opts)
